@@ -212,6 +212,15 @@ pub enum Op {
         bad_hex: Option<(usize, u8)>,
     },
     Select { a: usize, b: usize, choice: bool, form: u8 },
+    /// `Clone::clone_from` of pool member `src` into a clone of pool member `dst` (same wrapper type; for the boxed
+    /// carriers the two may have different precisions — an overwritten buffer is state carried from one value to the next)
+    CloneFrom {
+        dst: usize,
+        src: usize,
+        /// take the two most recent pool members instead (dst = last, src = the one before)
+        #[serde(default)]
+        recent: bool,
+    },
     Convert { src: usize, kind: Conv },
     Random { carrier: Carrier, wr: Wr, infallible: bool, bits: u32, tape: TapePlan },
     Deser {
@@ -730,6 +739,62 @@ fn exec(plan: &Plan, out: &mut RunOut) {
                         );
                     }
                     pool.push(Member { w, born: ei, producer: "conditional_select".into() });
+                }
+            }
+            Op::CloneFrom { dst, src, recent } => {
+                if pool.len() < 2 {
+                    continue;
+                }
+                let (id, is) = if *recent { (pool.len() - 1, pool.len() - 2) } else { (dst % pool.len(), src % pool.len()) };
+                macro_rules! cf {
+                    ($var:ident, $x:expr, $y:expr) => {{
+                        let (x, y) = ($x.clone(), $y.clone());
+                        guard(move || {
+                            let mut t = x;
+                            t.clone_from(&y);
+                            Some(W::$var(t))
+                        })
+                    }};
+                }
+                let g: Guarded<Option<W>> = match (&pool[id].w, &pool[is].w) {
+                    (W::NzLimb(x), W::NzLimb(y)) => cf!(NzLimb, x, y),
+                    (W::OddLimb(x), W::OddLimb(y)) => cf!(OddLimb, x, y),
+                    (W::NzU1(x), W::NzU1(y)) => cf!(NzU1, x, y),
+                    (W::NzU2(x), W::NzU2(y)) => cf!(NzU2, x, y),
+                    (W::NzU4(x), W::NzU4(y)) => cf!(NzU4, x, y),
+                    (W::OddU1(x), W::OddU1(y)) => cf!(OddU1, x, y),
+                    (W::OddU2(x), W::OddU2(y)) => cf!(OddU2, x, y),
+                    (W::OddU4(x), W::OddU4(y)) => cf!(OddU4, x, y),
+                    (W::NzI2(x), W::NzI2(y)) => cf!(NzI2, x, y),
+                    (W::OddI2(x), W::OddI2(y)) => cf!(OddI2, x, y),
+                    (W::NzB(x), W::NzB(y)) => cf!(NzB, x, y),
+                    (W::OddB(x), W::OddB(y)) => cf!(OddB, x, y),
+                    _ => continue,
+                };
+                match g {
+                    Guarded::Done(Some(w)) => {
+                        out.ev(&format!("clone_from/{}", w.ty()));
+                        let (a, b) = (w.words(), pool[is].w.words());
+                        out.count("probe:clone_from-checked");
+                        if b.len() != pool[id].w.words().len() {
+                            out.count("probe:clone_from-between-different-precisions");
+                        }
+                        out.state(format!("clone_from|{}|dst-limbs{}|src-limbs{}", w.ty(), pool[id].w.words().len().min(5), b.len().min(5)));
+                        let m = a.len().min(b.len());
+                        if a[..m] != b[..m] || !is_zero(&a[m..]) || !is_zero(&b[m..]) {
+                            out.viol(
+                                "C12/invalid-wrapper",
+                                format!("clone_from:{}:value-changed", w.ty()),
+                                format!("clone_from of {} into a {} holding {} gave {}", hexw(&b), w.ty(), hexw(&pool[id].w.words()), hexw(&a)),
+                                None,
+                            );
+                        }
+                        pool.push(Member { w, born: ei, producer: "clone_from".into() });
+                    }
+                    Guarded::Panic(p) => {
+                        out.viol("C11/unexpected-panic", format!("clone_from:{}", p.location), format!("clone_from between two valid {} panicked at {}: {}", pool[is].w.ty(), p.location, p.message), None);
+                    }
+                    _ => {}
                 }
             }
             Op::Convert { src, kind } => {
@@ -1378,10 +1443,30 @@ impl TypedScenario for Pool {
             let carrier = *r.pick(&CARRIERS);
             let wr = if r.chance(1, 2) { Wr::Nz } else { Wr::Odd };
             let n = if carrier == Carrier::Boxed { r.range(1, 4) as usize } else { limbs_of(carrier) };
-            ops.push(match r.weighted(&weights) {
+            let mut pre: Vec<Op> = Vec::new();
+            let op = match r.weighted(&weights) {
                 0 => {
                     let how = *r.pick(&HOWS);
                     Op::Produce { carrier, wr, how, words: gen_arg(&mut r, how, n), bytes: gen_bytes(&mut r, 8 * n), bad_hex: gen_bad_hex(&mut r) }
+                }
+                1 if r.chance(1, 4) => {
+                    if r.chance(1, 2) {
+                        // two boxed wrappers of different precisions, the source with its value in the high limbs only
+                        let wr = if r.chance(3, 4) { Wr::Nz } else { Wr::Odd };
+                        let (ns, nd) = (r.range(2, 4) as usize, r.range(1, 3) as usize);
+                        let mut src_words = vec![0u64; ns];
+                        src_words[ns - 1] = r.next() | 1;
+                        if wr == Wr::Odd || r.chance(1, 3) {
+                            src_words[0] = r.next() | 1;
+                        }
+                        let mut dst_words = gen_value(&mut r, nd);
+                        dst_words[0] |= 1;
+                        pre.push(Op::Produce { carrier: Carrier::Boxed, wr, how: How::New, words: src_words, bytes: vec![], bad_hex: None });
+                        pre.push(Op::Produce { carrier: Carrier::Boxed, wr, how: How::New, words: dst_words, bytes: vec![], bad_hex: None });
+                        Op::CloneFrom { dst: 0, src: 0, recent: true }
+                    } else {
+                        Op::CloneFrom { dst: r.below(64) as usize, src: r.below(64) as usize, recent: false }
+                    }
                 }
                 1 => Op::Select { a: r.below(64) as usize, b: r.below(64) as usize, choice: r.chance(1, 2), form: r.below(3) as u8 },
                 2 => Op::Convert {
@@ -1419,7 +1504,9 @@ impl TypedScenario for Pool {
                     operand: gen_value(&mut r, 4),
                     rel: if r.chance(1, 2) { r.range(1, 5) as u8 } else { 0 },
                 },
-            });
+            };
+            ops.extend(pre);
+            ops.push(op);
         }
         Plan { ops }
     }
